@@ -3,26 +3,35 @@ A check reports only verdicts whose clause is tagged with its property id."""
 
 D = lambda name, *args: (name, list(args))  # noqa: E731
 
-MC_MODELS = {}
+MC_MODELS = {
+    "MC_Header": {"tla": "MC_Header.tla", "cfg": "MC_Header.cfg", "workers": 4, "timeout": 300},
+    "MC_Labels": {"tla": "MC_Labels.tla", "cfg": "MC_Labels.cfg", "workers": 6, "timeout": 300},
+    "MC_Memory": {"tla": "MC_Memory.tla", "cfg": "MC_Memory.cfg", "thorough_cfg": "MC_Memory_thorough.cfg", "workers": 8, "timeout": 1500},
+}
+
+# S->I scenario generators: TLC enumerates behaviours, the harness replays them on the real code
+GENERATORS = {
+    "Gen_Memory": {"tla": "MC_Memory.tla", "cfg": "Gen_Memory.cfg", "thorough_cfg": "Gen_Memory_thorough.cfg", "timeout": 600},
+}
 
 PLAN = {
     "C01": {"mc": [], "drivers": [D("lattice"), D("chains")]},
     "C02": {"mc": [], "drivers": [D("chains"), D("lattice")]},
     "C03": {"mc": [], "drivers": [D("faults"), D("chains")]},
-    "C04": {"mc": [], "drivers": [D("labels"), D("chains")]},
+    "C04": {"mc": ["MC_Labels"], "drivers": [D("labels"), D("chains")]},
     "C05": {"mc": [], "drivers": [D("fuzzrx"), D("faults")]},
     "C06": {"mc": [], "drivers": [D("lattice"), D("chains"), D("ext")]},
     "C07": {"mc": [], "drivers": [D("interleave"), D("frames")]},
     "C08": {"mc": [], "drivers": [D("fuzzrx"), D("faults"), D("interleave"), D("labels")]},
-    "C09": {"mc": [], "drivers": [D("lattice"), D("labels"), D("ext")]},
+    "C09": {"mc": ["MC_Labels"], "drivers": [D("lattice"), D("labels"), D("ext")]},
     "C10": {"mc": [], "drivers": [D("frames"), D("chains"), D("ext")]},
     "C11": {"mc": [], "drivers": [D("lattice"), D("chains")]},
     "C12": {"mc": [], "drivers": [D("crc"), D("chains"), D("lattice")]},
     "C13": {"mc": [], "drivers": [D("extnew"), D("ext")]},
-    "C14": {"mc": [], "drivers": [D("hdr")], "exhaustive": True},
-    "C15": {"mc": [], "drivers": [D("labels"), D("lattice")]},
+    "C14": {"mc": ["MC_Header"], "drivers": [D("hdr")], "exhaustive": True},
+    "C15": {"mc": ["MC_Labels"], "drivers": [D("labels"), D("lattice")]},
     "C16": {"mc": [], "drivers": [D("fuzzrx"), D("faults")]},
-    "C17": {"mc": [], "drivers": [D("memops")]},
+    "C17": {"mc": ["MC_Memory"], "drivers": [D("memops"), D("memops", "--scn", "@gen:Gen_Memory")]},
     "C18": {"mc": [], "drivers": [D("lattice")]},
     "C19": {"mc": [], "drivers": [D("chains"), D("frames"), D("ext")]},
     "C20": {"mc": [], "drivers": [D("utils")]},
